@@ -6,6 +6,7 @@
   * `y0.algorithm.simplify_latent`: `iter_latents`, `transform_latents_with_parents`,
     `remove_widow_latents`, `remove_unidirectional_latents`, `remove_redundant_latents`,
     `simplify_latent_dag`, `evans_simplify`
+  * `y0.algorithm.taheri_design._get_result` (the consumer: simplify, read off, run ID)   → `LV.getResult`
 
   A latent-variable DAG (`nx.DiGraph` with a boolean node attribute) is an insertion-ordered node
   list, an insertion-ordered edge list, the list of nodes whose tag is `True`, and the list of nodes
@@ -22,6 +23,7 @@
   Core Lean only (no Mathlib): the driver is compiled natively.
 -/
 import Y0.Model.Graph
+import Y0.Model.Id
 
 namespace Y0
 
@@ -233,6 +235,36 @@ def evansSimplify (fresh prime : Nat → Nat) (G : MG Nat) (extra : List Nat) : 
   let D := (ofMG fresh G).markLatent extra
   let r ← D.simplify prime
   r.graph.toMG?
+
+/-! ### `taheri_design._get_result` -/
+
+/-- the fields of `Result` that are computed (the others echo the arguments) -/
+structure DesignResult where
+  identifiable : Bool
+  preNodes : Nat
+  preEdges : Nat
+  postNodes : Nat
+  postEdges : Nat
+  admg : MG Nat
+  deriving Repr
+
+/-- `_get_result(lvdag, latents, observed, cause, effect)`: simplify the LV-DAG (in place), read the ADMG
+off it, `KeyError` when the cause or the effect is not a node of it, then ID for `P(effect | do(cause))`;
+`Unidentifiable` becomes `identifiable = False`, any other exception propagates.  `topo` stands for
+`graph.topological_sort()` inside ID (see Model/Id.lean); `canonicalize` only rewrites a returned estimand. -/
+def getResult (prime : Nat → Nat) (topo : MG Name → Except Err (List Name)) (D : LV) (cause effect : Nat) :
+    Except Err DesignResult := do
+  let r ← D.simplify prime
+  let admg ← r.graph.toMG?
+  if cause ∉ admg.nodes then .error (.invalidInput "KeyError")
+  else if effect ∉ admg.nodes then .error (.invalidInput "KeyError")
+  else
+    let mk (b : Bool) : DesignResult :=
+      ⟨b, D.nodes.length, D.edges.length, r.graph.nodes.length, r.graph.edges.length, admg⟩
+    match identify topo admg [cause] [effect] with
+    | .ok _ => .ok (mk true)
+    | .error .unidentifiable => .ok (mk false)
+    | .error e => .error e
 
 end LV
 end Y0
